@@ -418,7 +418,7 @@ static void place_objects(const Plan *p) {
     }
     if (o->addr[p->build]) {
       objaddr[j] = o->addr[p->build]();
-      if (o->storage == 3 || o->storage == 4) { // neighbours of the same size on both sides
+      if (o->storage == 3 || o->storage == 4 || o->storage == 9) { // neighbours of the same size on both sides
         unsigned char *q = objaddr[j];
         for (int i = 0; i < o->objsize; i++) { q[-1 - i] = SENT(i); q[o->objsize + i] = SENT(i + 64); }
       }
@@ -443,7 +443,7 @@ static int check_neighbours(const Plan *p, Result *r) {
     if (p->obj[j].local) continue;
     if (q >= arena && q < arena + sizeof arena)
       memset(owned + (q - arena), 1, p->obj[j].size);
-    else if (o->storage == 3 || o->storage == 4)
+    else if (o->storage == 3 || o->storage == 4 || o->storage == 9)
       for (int i = 0; i < o->objsize; i++)
         if (q[-1 - i] != SENT(i) || q[o->objsize + i] != SENT(i + 64)) {
           r->badobj = j;
@@ -1203,7 +1203,7 @@ int main(int argc, char **argv) {
     long first = atol(argv[3]), count = atol(argv[4]);
     long runs = 0, viol = 0, steps = 0, switches = 0, windows = 0, nontriv = 0, msteps = 0, casfail = 0, drained = 0, stallf = 0, pctf = 0,
          ops = 0, minimised = 0, sampled_distinct = 0;
-    long by_strat[NSTRAT] = {0}, by_threads[MAXT + 1] = {0}, by_cls[9] = {0}, by_storage[8] = {0}, by_build[2] = {0}, by_viol[5] = {0};
+    long by_strat[NSTRAT] = {0}, by_threads[MAXT + 1] = {0}, by_cls[9] = {0}, by_storage[10] = {0}, by_build[2] = {0}, by_viol[5] = {0};
     for (long i = first; i < first + count; i++) {
       uint64_t seed = mixseed(master, i);
       if (gen(&p, seed)) continue;
@@ -1234,8 +1234,8 @@ int main(int argc, char **argv) {
     for (int t = 1; t <= MAXT; t++) printf(" threads_%d=%ld", t, by_threads[t]);
     static const char *cn[] = {"compound", "incdec", "fetch", "xchg", "cas", "load", "store", "flag", "algo"};
     for (int c = 0; c < 9; c++) printf(" opclass_%s=%ld", cn[c], by_cls[c]);
-    static const char *sn[] = {"ptr", "member", "global", "gmember", "garray", "algo", "nested", "automatic"};
-    for (int c = 0; c < 8; c++) printf(" storage_%s=%ld", sn[c], by_storage[c]);
+    static const char *sn[] = {"ptr", "member", "global", "gmember", "garray", "algo", "nested", "automatic", "tls", "tlsmember"};
+    for (int c = 0; c < 10; c++) printf(" storage_%s=%ld", sn[c], by_storage[c]);
     printf(" build_default=%ld build_pic=%ld", by_build[0], by_build[1]);
     for (int c = 1; c < 5; c++) printf(" viol_%s=%ld", clsname[c], by_viol[c]);
     printf("\n");
